@@ -14,6 +14,10 @@
   A case `{"seq": [case, …]}` runs its steps one after the other in ONE child (`_run_seq`): each step in a sandbox of its own
   below the child's directory, with `os.chdir` between them — the working directory and pydjinni's module state carry over.
 * `run_cases`: pool of workers; `model_request`: the same case as a request for the Lean model (`c20.run`).
+* environment: `HELPER_STUB` under the names of `helper_candidates` (optional formatters / caches / wrappers a case asks for: `helpers`);
+  every stub logs the status it exits with; `_install_recorders` wraps `shutil.which`, `os.system`, `subprocess.Popen(shell=True)` so the
+  observation also holds the names looked up and the command lines handed to the shell; `_tree` before / after gives the new paths.
+* `address_forms`: spellings of the Swift package repository (`{root}` = the sandbox); `UNQUOTED_OUT`: `package.out` outside the model's domain.
 """
 from __future__ import annotations
 
@@ -38,9 +42,12 @@ STUB = r'''#!/bin/sh
 n=$(cat "$STUB_ROOT/counter" 2>/dev/null || echo 0)
 echo $((n+1)) > "$STUB_ROOT/counter"
 tool=$(basename "$0")
-printf '%s\t%s\t%s\t%s\n' "$n" "$tool" "$(pwd)" "$*" >> "$STUB_ROOT/log.tsv"
+st=0
+case " $STUB_FAIL_AT " in *" $n "*) st=3;; esac
+# the tool itself records the status it is about to exit with: what the shell makes of it is the caller's business
+printf '%s\t%s\t%s\t%s\t%s\n' "$n" "$tool" "$st" "$(pwd)" "$*" >> "$STUB_ROOT/log.tsv"
 if [ "$STUB_MISSING_AT" = "$((n+1))" ]; then for t in conan java nuget lipo xcodebuild git; do rm -f "$STUB_ROOT/bin/$t"; done; fi
-case " $STUB_FAIL_AT " in *" $n "*) exit 3;; esac
+if [ "$st" != 0 ]; then exit $st; fi
 case "$tool" in
 conan)
   while [ $# -gt 0 ]; do if [ "$1" = "--output-folder" ]; then of="$2"; fi; shift; done
@@ -68,6 +75,90 @@ git)
 esac
 exit 0
 '''
+
+
+# ---- the environment dimension: optional helper programs that may or may not be installed next to the named tools ----
+# A helper never fails and never writes a file. Run with a command as its arguments (`ccache cc …`, `time cmd`, `nice cmd`, `xcrun cmd`)
+# it runs that command and passes its status on; otherwise it swallows its standard input (`… | xcpretty`, `… | tee log`).
+# It logs itself to a file of its own (`helpers.tsv`), so the numbering of the invocation points of the named tools is unchanged.
+HELPER_STUB = r'''#!/bin/sh
+name=$(basename "$0")
+st=0
+if [ $# -gt 0 ] && [ -x "$STUB_ROOT/bin/$1" ]; then "$@"; st=$?; else cat >/dev/null 2>&1; fi
+printf '%s\t%s\t%s\n' "$name" "$st" "$*" >> "$STUB_ROOT/helpers.tsv"
+exit $st
+'''
+
+# formatters / wrappers / launchers commonly put around build tools
+COMMON_HELPERS = ["xcpretty", "xcbeautify", "ccache", "sccache", "tee", "time", "nice", "ionice", "stdbuf", "unbuffer", "script", "ts",
+                  "pv", "caffeinate", "arch", "xcrun", "mint", "bundle", "sudo", "nohup", "timeout", "retry", "chronic",
+                  "mono", "dotnet", "gradle", "mvn", "ssh", "ssh-agent", "sshpass", "gh", "hub", "git-lfs", "cmake", "ninja", "brew"]
+_PROGRAM = __import__("re").compile(r"^[A-Za-z][A-Za-z0-9_+.-]*$")
+
+
+def helper_candidates(src: Path) -> tuple[list[str], list[str]]:
+    """Names of programs the packaging code could look for or start besides the named tools, derived from the code under test:
+    every constant handed to a `which(…)` call, every constant that is (part of) an argument of `execute` / `os.system` /
+    `subprocess.*` (any word of a command line can become a command once the shell sees an operator before it) — plus the
+    common wrappers and formatters. Never a named tool, never one of the core utilities the gradle wrapper script needs.
+    Returns (all candidates, those the code looks up with `which` itself)."""
+    import ast
+    found, looked_up = set(), set()
+    for d in ("packaging", "builder"):
+        for f in sorted((src / "pydjinni" / d).rglob("*.py")):
+            try:
+                tree = ast.parse(f.read_text())
+            except (SyntaxError, UnicodeDecodeError):
+                continue
+            for node in ast.walk(tree):
+                if not isinstance(node, ast.Call):
+                    continue
+                fn = node.func
+                name = fn.attr if isinstance(fn, ast.Attribute) else getattr(fn, "id", "")
+                if name not in ("which", "execute", "system", "run", "call", "check_call", "check_output", "Popen", "popen"):
+                    continue
+                for sub in ast.walk(node):
+                    if isinstance(sub, ast.Constant) and isinstance(sub.value, str):
+                        for word in sub.value.replace("|", " ").replace(";", " ").replace("&", " ").split():
+                            word = word.strip("'\"()`$")
+                            if _PROGRAM.match(word):
+                                found.add(word.rsplit("/", 1)[-1])
+                                if name == "which":
+                                    looked_up.add(word.rsplit("/", 1)[-1])
+    named = set(TOOLS) | set(COREUTILS) | {"gradlew", "gradlew.bat"}
+    return sorted((found | set(COMMON_HELPERS)) - named), sorted(looked_up - named)
+
+
+# ---- the address dimension of the Swift package `publish`: how `package.swiftpackage.publish.repository` is spelled ----
+# `{root}` stands for the sandbox directory (absolute local paths). Whether a form is published through git or copied into a
+# directory is NOT stated here: the model decides it from the spelling (`Pkg.classifyRepo`, the rule of the code), the check compares.
+def address_forms() -> list[str]:
+    hosts = ["github.com", "gitlab.example.com", "h", "10.0.0.7", "git.example.org:2222"]
+    scp, url = [], []
+    tails = ["repo.git", "foo/bar.git", "group/subgroup/repo.git", "a/b/c/d/e.git", "/srv/git/repo.git", "~user/repo.git", "~/repo.git",
+             "repo.git/", "g//r.git", "g/./r.git", "foo/bar", ".git", "x/.git", "r.git.", "r.GIT", "foo/bar.git.git", "2222/grp/r.git",
+             "foo-bar_baz/r.v2.git", "team/repo", "x.git/y"]
+    for i, t in enumerate(tails):
+        scp.append(f"git@{hosts[i % 4]}:{t}")
+    scp += ["user@h:foo/bar.git", "git@h", "git@", "git@h:", " git@h:foo/bar.git", "Git@h:foo/bar.git", "git@h:foo/bar.git ", "org-1234@github.com:foo/bar.git"]
+    for i, t in enumerate(["foo/bar.git", "repo.git", "group/subgroup/repo.git", "a/b/c/d/e.git", "foo/bar", "", "repo.git/", "~user/repo.git"]):
+        scheme = "https" if i % 3 else "http"
+        host = hosts[i % len(hosts)]
+        user = "user@" if i % 4 == 1 else ""
+        url.append(f"{scheme}://{user}{host}/{t}")
+    url += ["HTTPS://GitHub.com/foo/bar.git", "https://h:8443/g/s/r.git", "https://h/r.git?ref=main#frag"]
+    other = ["ssh://git@h/foo/bar.git", "ssh://git@h:22/g/s/r.git", "git://h/r.git", "git+ssh://git@h/r.git", "file:///srv/git/r.git", "ftp://h/r.git"]
+    local = ["published", "./published", "published/", "a/b/c", "pub.git", "git@dir", "~/pub", "../pub", "{root}/ext/pub", "{root}/ext/pub.git/",
+             "{root}/proj/abs_pub", "out put", "."]
+    return scp + url + other + local
+
+
+DEFAULT_ADDRESS = {"local": "published", "git": "git@github.com:foo/bar.git", "url": "https://github.com/foo/bar.git"}
+
+
+def address_of(case) -> str:
+    """the repository address of a Swift package case as the configuration spells it (with `{root}` for the sandbox directory)"""
+    return case.get("address") or DEFAULT_ADDRESS[case.get("publish_mode", "local")]
 
 
 def dist_files(case) -> list[list[str]]:
@@ -107,9 +198,7 @@ def options(case, root: Path) -> dict:
         if case.get("readme"):
             pub["readme"] = "README.md"
     else:
-        mode = case.get("publish_mode", "local")
-        pub = {"repository": {"local": "published", "git": "git@github.com:foo/bar.git", "url": "https://github.com/foo/bar.git"}[mode],
-               "username": "u", "password": "p"}
+        pub = {"repository": address_of(case).replace("{root}", str(root)), "username": "u", "password": "p"}
     pkg = {"target": TARGET, "version": VERSION, key: {"platforms": plats, "publish": pub}}
     spelled = out_spelling(case, root)
     if spelled is not None:
@@ -126,6 +215,15 @@ OUT_KINDS = ("dist", "nested", "in_abs", "else_abs", "dotdot")
 CWD_KINDS = ("proj", "sub")
 
 
+# Values outside the model's domain: `execute` joins the command line unquoted, so a blank or a shell operator in a path that is
+# spliced into it changes what the shell runs (`Pkg.executeSh_simple` holds for simple commands only). `package.out` spelled so:
+UNQUOTED_OUT = {"u_semi": "a;true #b", "u_blank": "my out", "u_pipe": "x|cat"}
+
+
+def outside_dom(case) -> bool:
+    return out_kind(case) in UNQUOTED_OUT
+
+
 def out_kind(case) -> str:
     return case.get("out") or ("in_abs" if case.get("out_abs") else "dist")
 
@@ -137,6 +235,8 @@ def cwd_components(case) -> list[str]:
 def out_spelling(case, root: Path):
     """`package.out` as the configuration spells it (None = not configured)"""
     k = out_kind(case)
+    if k in UNQUOTED_OUT:
+        return UNQUOTED_OUT[k]
     if k == "dist":
         return None
     if k == "nested":
@@ -153,6 +253,8 @@ def out_spelling(case, root: Path):
 def out_components(case) -> dict:
     """the same as a path value of the model"""
     k = out_kind(case)
+    if k in UNQUOTED_OUT:
+        return {"abs": False, "c": [UNQUOTED_OUT[k]]}
     return {"dist": {"abs": False, "c": ["dist"]}, "nested": {"abs": False, "c": ["build", "out", "pkg"]},
             "in_abs": {"abs": True, "c": ["proj", "outabs"]}, "else_abs": {"abs": True, "c": ["ext", "out"]},
             "dotdot": {"abs": False, "up": len(cwd_components(case)), "c": ["ext_up", "artifacts"]}}[k]
@@ -161,6 +263,8 @@ def out_components(case) -> dict:
 def out_base(case) -> list[str]:
     """the directory `package.out` denotes, from the sandbox root"""
     k = out_kind(case)
+    if k in UNQUOTED_OUT:
+        return cwd_components(case) + [UNQUOTED_OUT[k]]
     return {"dist": cwd_components(case) + ["dist"], "nested": cwd_components(case) + ["build", "out", "pkg"],
             "in_abs": ["proj", "outabs"], "else_abs": ["ext", "out"], "dotdot": ["ext_up", "artifacts"]}[k]
 
@@ -207,7 +311,8 @@ def model_request(case, templates) -> dict:
            "templates": templates, "distFiles": dist_files(case), "netVersion": NET,
            "readme": {"abs": False, "c": ["README.md"]} if (key == "nuget" and case.get("readme")) else None,
            "mavenRemote": mode == "remote", "nugetLocal": mode == "local",
-           "swiftRepo": mode if key == "swiftpackage" else "git", "swiftLocal": {"abs": False, "c": ["published"]}}
+           # the address as spelled, the sandbox directory being the model's root: `Pkg.classifyRepo` says what publish makes of it
+           "repository": address_of(case).replace("{root}", "") if key == "swiftpackage" else DEFAULT_ADDRESS["git"]}
     req = {"op": "c20.run", "cfg": cfg, "phase": case["phase"], "cwd": cwd_components(case), "files": initial_files(case), "fault": None}
     f = case.get("fault")
     if f:
@@ -270,7 +375,7 @@ def _listing(root: Path) -> list[list[str]]:
     return sorted(out)
 
 
-def _install_stubs(root: Path, with_tools: bool):
+def _install_stubs(root: Path, with_tools: bool, helpers=()):
     b = root / "bin"
     b.mkdir(exist_ok=True)
     for u in COREUTILS:
@@ -283,6 +388,11 @@ def _install_stubs(root: Path, with_tools: bool):
         if with_tools:
             (b / t).write_text(STUB)
             os.chmod(b / t, 0o755)
+    # optional helper programs of the environment: they stay installed when the named tools disappear
+    for h in helpers:
+        if h not in TOOLS and h not in COREUTILS and not (b / h).exists():
+            (b / h).write_text(HELPER_STUB)
+            os.chmod(b / h, 0o755)
 
 
 def _read_log(root: Path) -> list[dict]:
@@ -291,20 +401,75 @@ def _read_log(root: Path) -> list[dict]:
     if f.exists():
         for line in f.read_text().split("\n"):
             if line:
-                n, tool, cwd, args = (line.split("\t") + [""])[:4]
+                n, tool, st, cwd, args = (line.split("\t") + ["", ""])[:5]
                 t, sig = sig_of(tool, args.split())
-                out.append({"tool": t, "sig": sig, "ranIn": _rel(root, cwd)})
+                out.append({"tool": t, "sig": sig, "ranIn": _rel(root, cwd), "exit": int(st or 0)})
     return out
 
 
-def _arm(root: Path, fault):
+def _read_helpers(root: Path) -> list[list]:
+    f = root / "helpers.tsv"
+    out = []
+    if f.exists():
+        for line in f.read_text().split("\n"):
+            if line:
+                name, st, args = (line.split("\t") + ["", ""])[:3]
+                out.append([name, int(st or 0), args.split()[:1]])
+    return out
+
+
+# what the operation asked the environment: names looked up with `shutil.which`, command lines handed to the shell
+_REC = {"which": [], "cmds": []}
+
+
+def _install_recorders():
+    """thin recording wrappers (they delegate unchanged); installed before pydjinni is imported, so that `from shutil import which`
+    style imports bind the wrapper too"""
+    import subprocess as sp
+    if getattr(shutil.which, "_c20", False):
+        return
+    real_which, real_system, real_popen_init = shutil.which, os.system, sp.Popen.__init__
+
+    def which(cmd, *a, **k):
+        _REC["which"].append(str(cmd))
+        return real_which(cmd, *a, **k)
+
+    def system(command):
+        _REC["cmds"].append(str(command))
+        return real_system(command)
+
+    def popen_init(self, args, *a, **k):
+        if k.get("shell"):
+            _REC["cmds"].append(args if isinstance(args, str) else " ".join(map(str, args)))
+        return real_popen_init(self, args, *a, **k)
+
+    which._c20 = True
+    shutil.which, os.system, sp.Popen.__init__ = which, system, popen_init
+
+
+def _tree(root: Path) -> set:
+    """every file AND directory of the sandbox (components from the sandbox root) except the stub tools and their logs"""
+    out = set()
+    for top in os.listdir(root):
+        if top in ("bin", "log.tsv", "counter", "helpers.tsv"):
+            continue
+        out.add((top,))
+        if (root / top).is_dir() and not (root / top).is_symlink():
+            for d, dirs, files in os.walk(root / top):
+                rel = Path(d).relative_to(root).parts
+                for n in dirs + files:
+                    out.add(rel + (n,))
+    return out
+
+
+def _arm(root: Path, fault, helpers=()):
     """(re)arm the stubs for one phase: counter and log reset, fault point set"""
-    for n in ("counter", "log.tsv"):
+    for n in ("counter", "log.tsv", "helpers.tsv"):
         if (root / n).exists():
             (root / n).unlink()
     os.environ["STUB_FAIL_AT"] = "-1"
     os.environ["STUB_MISSING_AT"] = "-1"
-    _install_stubs(root, with_tools=not (fault and fault["kind"] == "missing" and fault["k"] == 0))
+    _install_stubs(root, with_tools=not (fault and fault["kind"] == "missing" and fault["k"] == 0), helpers=helpers)
     if fault:
         if fault["kind"] == "nonzero":
             os.environ["STUB_FAIL_AT"] = " ".join(str(k) for k in [fault["k"]] + list(fault.get("also") or []))
@@ -312,6 +477,8 @@ def _arm(root: Path, fault):
                 os.environ["STUB_MISSING_AT"] = str(fault["then_missing"])
         elif fault["k"] > 0:
             os.environ["STUB_MISSING_AT"] = str(fault["k"])
+    _REC["which"].clear()
+    _REC["cmds"].clear()
 
 
 def _guarded(fn):
@@ -354,13 +521,15 @@ def _run_case(case, root: Path, api):
         pc.write_package(clean=bool(case.get("clean")))
 
     obs = {}
+    helpers = case.get("helpers") or ()
     if case["phase"] == "package":
-        _arm(root, case.get("fault"))
+        _arm(root, case.get("fault"), helpers)
+        tree_before = _tree(root)
         obs["outBefore"] = out_listing()
         obs["cwdBefore"] = _rel(root, os.getcwd())
         obs["code"], obs["exc"] = _guarded(lambda: do_package(api))
     else:
-        _arm(root, None)
+        _arm(root, None, helpers)
         code, exc = _guarded(lambda: do_package(api))
         if code is not None or os.getcwd() != str(proj):
             return {"prepare_failed": True, "code": code, "exc": exc, "cwdAfter": _rel(root, os.getcwd())}
@@ -375,7 +544,8 @@ def _run_case(case, root: Path, api):
             p = root.joinpath(*a)
             p.parent.mkdir(parents=True, exist_ok=True)
             p.write_text("x")
-        _arm(root, case.get("fault"))
+        _arm(root, case.get("fault"), helpers)
+        tree_before = _tree(root)
         obs["outBefore"] = out_listing()
         obs["cwdBefore"] = _rel(root, os.getcwd())
         # a separate `pydjinni publish` invocation: fresh API object
@@ -384,6 +554,11 @@ def _run_case(case, root: Path, api):
     obs["outAfter"] = out_listing()
     obs["files"] = _listing(root)
     obs["calls"] = _read_log(root)
+    # files and directories that are there now and were not there before the operation
+    obs["newPaths"] = sorted(list(p) for p in _tree(root) - tree_before)
+    obs["cmdlines"] = list(_REC["cmds"])
+    obs["whichAsked"] = sorted(set(_REC["which"]))
+    obs["helperCalls"] = _read_helpers(root)
     return obs
 
 
@@ -408,6 +583,7 @@ def worker_main(base: Path):
     elsewhere = base / "elsewhere"
     elsewhere.mkdir(parents=True, exist_ok=True)
     os.chdir(elsewhere)          # pydjinni is imported here, the cases run somewhere else
+    _install_recorders()
     from pydjinni import API
     api = API()
     for line in sys.stdin:
@@ -426,6 +602,7 @@ def worker_main(base: Path):
                 dn = os.open(os.devnull, os.O_WRONLY)
                 os.dup2(dn, 1)
                 os.dup2(dn, 2)
+                os.dup2(os.open(os.devnull, os.O_RDONLY), 0)      # a tool that reads its standard input must not eat the case feed
                 try:
                     res = _run_seq(case, root, api) if "seq" in case else _run_case(case, root, api)
                 except BaseException as e:  # noqa: BLE001
